@@ -100,7 +100,7 @@ func checkC10(c *Ctx) {
 	// the deepest inputs of this check need a few GiB in the worker: a wider memory budget than the default
 	c.Pool.Env = append(c.Pool.Env, "ZNWORKER_RSS_LIMIT_MB=10240")
 	c.Pool.LongRetry = true
-	c.rule = "API driver: every receiver of a 53-value pool (dictionaries with unusual but legal keys - the empty text, a blank, NUL, a quote, number spellings, a 200-character key - among them) (all value types incl. objects, types, library functions, exception, Go value) x every member name extracted from the working tree (+unknown names) x {get, set, call, new, fn, str, dup, twin (continue on the copy), cmp, json} x argument tuples (arity 0..1 exhaustive over a 33-value boundary pool, arity 2 exhaustive in thorough, arity 2..4 random; for list / dictionary / text receivers additionally every position and position pair in [-2, length+2]; for dictionary receivers every member with key paths that begin with the receiver's own keys), applied as step sequences on one receiver; plus scripted histories that copy a list / dictionary of 0..9 elements and alternate insertions and removals between the value and its copy, displaying both. Program driver: one- and two-statement Zn programs applying every operator / index / member / call / new / throw / loop form to input variables drawn from the same pools; plus user methods / type methods whose body ends in each of 25 failures (with no handler, a handler without and with 输出) whose call is placed in each of 26 consumer positions. Whole-program driver: programs made of definitions / comments / imports only and programs yielding each kind of value, through Execute and through the playground HTTP handler; runaway recursion (plain, mutual, through a type method, through a constructor) without a logical budget. Input-variable driver: texts without any statement (line breaks, comments, imports only), every right-hand-side kind, failing and ill-formed texts through ExecVarInputText. Traversal driver: every mutating list / dictionary method applied to the collection a 遍历 is running over (lists of 1, 2, 3, 6 items; directly, in a called method, through an alias parameter). Host driver: 21 programs served by ZnHttpHandler that answer with an HTTP响应 object whose 头部 / 状态码 / 内容 have the wrong type or whose status is 0, negative, fractional, 99, 1000, 1e19, infinite or NaN. Huge-result driver: 替换 / 拼接 / 分隔 on ordinary-sized texts whose result would need 2^49 bytes. Violation = recovered Go panic, nil element without error, worker exit, or hang. distinct_nontrivial = distinct (receiver kind, step kind, member, arg kinds, outcome kind)"
+	c.rule = "API driver: every receiver of a 53-value pool (dictionaries with unusual but legal keys - the empty text, a blank, NUL, a quote, number spellings, a 200-character key - among them) (all value types incl. objects, types, library functions, exception, Go value) x every member name extracted from the working tree (+unknown names) x {get, set, call, new, fn, str, dup, twin (continue on the copy), cmp, json} x argument tuples (arity 0..1 exhaustive over a 33-value boundary pool, arity 2 exhaustive in thorough, arity 2..4 random; for list / dictionary / text receivers additionally every position and position pair in [-2, length+2]; for dictionary receivers every member with key paths that begin with the receiver's own keys), applied as step sequences on one receiver; plus scripted histories that copy a list / dictionary of 0..9 elements and alternate insertions and removals between the value and its copy, displaying both. Program driver: one- and two-statement Zn programs applying every operator / index / member / call / new / throw / loop form to input variables drawn from the same pools; plus user methods / type methods whose body ends in each of 25 failures (with no handler, a handler without and with 输出) whose call is placed in each of 26 consumer positions. Whole-program driver: programs made of definitions / comments / imports only and programs yielding each kind of value and ill-formed programs whose error report steps over characters of every plane, through Execute and through the playground HTTP handler; runaway recursion (plain, mutual, through a type method, through a constructor) without a logical budget. Input-variable driver: texts without any statement (line breaks, comments, imports only), every right-hand-side kind, failing and ill-formed texts through ExecVarInputText. Traversal driver: every mutating list / dictionary method applied to the collection a 遍历 is running over (lists of 1, 2, 3, 6 items; directly, in a called method, through an alias parameter). Host driver: 21 programs served by ZnHttpHandler that answer with an HTTP响应 object whose 头部 / 状态码 / 内容 have the wrong type or whose status is 0, negative, fractional, 99, 1000, 1e19, infinite or NaN. Huge-result driver: 替换 / 拼接 / 分隔 on ordinary-sized texts whose result would need 2^49 bytes. Violation = recovered Go panic, nil element without error, worker exit, or hang. distinct_nontrivial = distinct (receiver kind, step kind, member, arg kinds, outcome kind)"
 	c.assumptions = []string{"library functions run inside the worker's private scratch directory", "member tables are read from /repo sources at check time by a string-literal scan"}
 	rng := c.Rand("c10")
 	members := memberNames()
@@ -475,6 +475,17 @@ func checkC10(c *Ctx) {
 		"如何f？\n\t输出 1\n定义型：\n\t其甲 = 1\n注：完\n", "输出 显示\n", "输出 异常\n", "输出 （新建异常：“x”）\n", "定义型：\n\t其甲 = 1\n输出 型\n", "定义型：\n\t其甲 = 1\n输出（新建型）\n",
 		"如何f？\n\t输出 1\n输出 f\n", "导入《@样品库》\n输出 样品\n", "导入《@样品库》\n输出（新建样品）\n", "导入《@样品库》\n输出 取常数\n", "导入《@样品库》\n输出（新建HTTP响应：200、“x”）\n", "输出 空\n", "输出 数值\n",
 		"如何f？\n\t如何g？\n\t\t输出 1\n输出（f）\n", "令甲 = 1\n", "1\n", "“a”\n", "【1，2】\n", "如果 假：\n\t输出 1\n", "每当 假：\n\t输出 1\n", "抛出异常：“x”！\n", "输出 1 / 0\n", "如果：\n"}
+	// ill-formed programs whose error report has to step over characters of every plane (the report
+	// is part of the outcome: a host that renders it must get a text, not a Go panic)
+	for plane := rune(0); plane <= 16; plane++ {
+		for _, off := range []rune{0x1, 0x100, 0xFFFD} {
+			cp := plane<<16 + off
+			whole = append(whole, "令甲 = “"+string(cp)+"” 】】\n", "令甲 = 1\n令乙 = 「"+string(cp)+string(cp)+"」 + ）\n")
+		}
+	}
+	for _, cp := range []rune{0xE0001, 0xE0067, 0xE007F, 0xE0100, 0xE01EF, 0x3FFFD, 0x3FFFE, 0x40000, 0xF0000, 0x10FFFD, 0x10FFFF} {
+		whole = append(whole, "令甲 = “"+string(cp)+"” 】】\n", "（显示：“"+string(cp)+"”、\n")
+	}
 	wreqs := []Req{}
 	for _, w := range whole {
 		r1 := execReq(w)
